@@ -206,6 +206,10 @@ func registerIntrinsics(p *Program) {
 	reg("verifLockFree", func(ex *Exec, a []Value) Value {
 		return Bool(ex.mutexHeld(a[0].(Ptr)) == 0)
 	})
+	reg("verifTimerHold", func(ex *Exec, a []Value) Value {
+		ex.natState["timer.hold"] = true
+		return nil
+	})
 	reg("verifTimerResets", func(ex *Exec, a []Value) Value {
 		resets, _ := ex.natState["timer.resets"].([]*Term)
 		el := make([]Value, len(resets))
